@@ -2,11 +2,17 @@
    Only statements, closed by [exact lemma], with Print Assumptions beneath. *)
 From Coq Require Import String List NArith ZArith Bool Permutation.
 From J5V.lib Require Import Outcome.
-From J5V.model Require Import ReflectDesc ReflectSchema Reflect ReflectSpec.
+From J5V.model Require Import ReflectDesc ReflectSchema Reflect ReflectOwn ReflectSpec.
 From J5V.gen Require ReflectGen.
-From J5V.proofs Require Import ReflectProofs ExportProofs ReflectInvProofs ReflectPathProofs ReflectFuelProofs ReflectFlattenProofs ReflectCodecProofs ReflectDeclProofs ReflectClassProofs ReflectOrderProofs.
+From J5V.proofs Require Import ReflectProofs ExportProofs ReflectInvProofs ReflectPathProofs ReflectFuelProofs ReflectFlattenProofs ReflectCodecProofs ReflectDeclProofs ReflectClassProofs ReflectOrderProofs ReflectWeakProofs ReflectOwnProofs ReflectDeclSpecProofs.
 From J5V.model Require Import Export ReflectDecl.
 Import ListNotations.
+
+(* The model of the code is [o_reflect] / [o_cache_schema] (model/ReflectOwn.v): the reader with the
+   ownership of schema names (fix 0e6056c: a schema name asked for by two descriptors is an error).
+   [reflect] / [cache_schema] (model/Reflect.v) are that model with the owners erased; the two are
+   related once and for all by C18_reader_is_the_erased_reader_or_an_error below, and the theorems
+   stated for [reflect] are carried over by it (the headline ones are restated for [o_reflect]). *)
 
 (* The property at full strength, for every abstract descriptor set [D] (no hypothesis at all)
    and every selection of its files: the reader returns a schema set or an error, never panics,
@@ -15,11 +21,43 @@ Import ListNotations.
    every property of every reflected message type. *)
 Definition C18_full_statement : Prop :=
   forall (D : desc) (fs : list filed),
-    (forall s, reflect D fs <> Panic s) /\ reflect D fs <> OutOfFuel /\
-    forall S, reflect D fs = Ok S ->
+    (forall s, o_reflect D fs <> Panic s) /\ o_reflect D fs <> OutOfFuel /\
+    forall S ow, o_reflect D fs = Ok (S, ow) ->
       set_consistent D S = true /\
       forall m r, In m (d_msgs D) -> lookup S (msg_key m) = Some (Linked r) ->
-        codec_classes D S m r = (0%N, 0%N).
+        (* no member error swallowed (codec_classes_strict), and every client property can be given a value *)
+        codec_classes_strict D S m r = (0%N, 0%N) /\
+        forall pfs, new_prop_set D S r m = Ok pfs -> forall q f, In (q, Some f) pfs -> value_settable (p_schema q) = true.
+
+(* ---- the reader with owners against the reader without: either an error (possibly a new one: a name
+   claimed by a second descriptor), or exactly the outcome of Reflect.v on the erased state; the
+   same for SchemaCache.Schema, whose errors leave cache and owners as they were *)
+Theorem C18_reader_is_the_erased_reader_or_an_error : forall D fs,
+  is_err (o_reflect D fs) = true \/ omap fst (o_reflect D fs) = reflect D fs.
+Proof. exact o_reflect_sim. Qed.
+Print Assumptions C18_reader_is_the_erased_reader_or_an_error.
+
+Theorem C18_cache_is_the_erased_cache_or_an_error : forall D fuel s m,
+  ((exists c, snd (o_cache_schema D fuel s m) = Err c) /\ fst (o_cache_schema D fuel s m) = s) \/
+  (fst (fst (o_cache_schema D fuel s m)), snd (o_cache_schema D fuel s m)) = cache_schema D fuel (fst s) m.
+Proof. exact o_cache_schema_sim. Qed.
+Print Assumptions C18_cache_is_the_erased_cache_or_an_error.
+
+(* ---- what the ownership adds (no hypothesis on the descriptors): a message that SchemaCache.Schema /
+   messageSchema answers owns its schema name afterwards, no name ever changes its owner, and a
+   message whose name belongs to another descriptor is never answered (an error, whatever the cache
+   holds): a name is never answered with the schema of another descriptor *)
+Theorem C18_answered_message_owns_its_name : forall D fuel s m s1 r,
+  o_message_schema D fuel s m = Ok (s1, r) ->
+  (forall k o, owner (snd s) k = Some o -> owner (snd s1) k = Some o) /\
+  owner (snd s1) (msg_key m) = Some (m_full m).
+Proof. exact o_message_schema_owned. Qed.
+Print Assumptions C18_answered_message_owns_its_name.
+
+Theorem C18_foreign_name_is_an_error : forall D fuel s m o,
+  owner (snd s) (msg_key m) = Some o -> o <> m_full m -> exists c, o_message_schema D fuel s m = Err c.
+Proof. exact o_message_schema_foreign. Qed.
+Print Assumptions C18_foreign_name_is_an_error.
 
 (* ---- totality. The only hypothesis is what protodesc.NewFiles guarantees of every linked set and
    is stated as such, not derived: an enum has at least one value ([enums_nonempty]; protodesc rejects
@@ -28,15 +66,20 @@ Definition C18_full_statement : Prop :=
    oneof is an error, no longer a failed type assertion. The reader's remaining panic site is
    buildEnum's sourceValues.Get(0) on an enum without values (C18_empty_enum_panics_in_the_model). *)
 Theorem C18_reflect_total : forall D, enums_nonempty D -> forall fs,
+  (forall s, o_reflect D fs <> Panic s) /\ o_reflect D fs <> OutOfFuel.
+Proof. exact o_reflect_total. Qed.
+Print Assumptions C18_reflect_total.
+
+Theorem C18_erased_reflect_total : forall D, enums_nonempty D -> forall fs,
   (forall s, reflect D fs <> Panic s) /\ reflect D fs <> OutOfFuel.
 Proof. exact reflect_total_any_names. Qed.
-Print Assumptions C18_reflect_total.
+Print Assumptions C18_erased_reflect_total.
 
 (* "never recurses forever", for EVERY descriptor set and every cache state (no hypothesis): the fuel
    |messages| + 1 is never exhausted; the recursion is cut by the placeholder registered before a
    message is built, and checkFlattenCycle's walk is bounded by the entries it has not expanded yet *)
-Theorem C18_reader_never_out_of_fuel : forall D fs, reflect D fs <> OutOfFuel.
-Proof. exact reflect_never_out_of_fuel. Qed.
+Theorem C18_reader_never_out_of_fuel : forall D fs, o_reflect D fs <> OutOfFuel.
+Proof. exact o_reflect_never_out_of_fuel. Qed.
 Print Assumptions C18_reader_never_out_of_fuel.
 
 Theorem C18_cache_never_out_of_fuel : forall D st m, In m (d_msgs D) -> snd (cache_schema D (size D) st m) <> OutOfFuel.
@@ -51,24 +94,35 @@ Theorem C18_cache_schema_total : forall D, enums_nonempty D -> forall st m, In m
 Proof. exact cache_schema_total_any_state. Qed.
 Print Assumptions C18_cache_schema_total.
 
-(* ---- self-consistency of a successful reflection, under the hypothesis wf_keys:
-     (1) enums non-empty (protodesc guarantees it),
-     (2) split names of messages / enums / real oneofs pairwise distinct (NOT guaranteed by a linked set:
-         C18_split_name_collision_refuted).
-   Conclusion: distinct keys, no unlinked placeholder, every scalar format known, every reference names
-   an entry of the set. The reader introduces no duplicate property name: the names of an object's
-   properties are pairwise distinct GIVEN json_ok,
-     (3) per message, the JSON names of its fields and of its exposed oneofs are pairwise distinct (protoc
-         guarantees this for the fields among themselves only: C18_exposed_oneof_name_clash_refuted).
-   Clause "property names are unique" of C18 is therefore proved only relative to (3); without it the
-   witness below refutes it. *)
-Theorem C18_reflect_ok_guarantees : forall D, wf_keys D -> forall fs S,
+(* the same for the cache as the code is (with owners): from any cache state and any owner table *)
+Theorem C18_owned_cache_schema_total : forall D, enums_nonempty D -> forall s m, In m (d_msgs D) ->
+  (forall p, snd (o_cache_schema D (size D) s m) <> Panic p) /\ snd (o_cache_schema D (size D) s m) <> OutOfFuel.
+Proof. exact o_cache_schema_total. Qed.
+Print Assumptions C18_owned_cache_schema_total.
+
+(* ---- self-consistency of a successful reflection, first part, for EVERY descriptor set (NO hypothesis;
+   until this round it carried wf_keys, and the names clause json_ok on top): distinct keys, every scalar
+   format known to the import, every reference names an entry of the set, the property names of every
+   object and oneof are pairwise distinct, no unlinked placeholder. Proved by a pass over the reader
+   (ReflectWeakProofs.v) that needs nothing about names: the property names are distinct because the
+   reader checks them itself since fix 07ed85e (checkPropertyNames; it used to be proved relative to
+   json_ok, which a linked set does not guarantee: exposed oneof foo_bar next to field fooBar, now
+   C18_exposed_oneof_name_clash_is_an_error). *)
+Theorem C18_reflect_ok_guarantees : forall D fs S ow,
+  o_reflect D fs = Ok (S, ow) ->
+  keys_distinct S = true /\ set_importable S = true /\ set_closed S = true /\
+  (forall k r, lookup S k = Some (Linked r) -> names_unique_b (root_props r) = true) /\
+  (forall k, lookup S k <> Some Placeholder) /\ NoDup (map fst S).
+Proof. exact o_reflect_ok_guarantees. Qed.
+Print Assumptions C18_reflect_ok_guarantees.
+
+Theorem C18_erased_reflect_ok_guarantees : forall D fs S,
   reflect D fs = Ok S ->
   keys_distinct S = true /\ set_importable S = true /\ set_closed S = true /\
-  (json_ok D -> forall k r, lookup S k = Some (Linked r) -> names_unique_b (root_props r) = true) /\
-  (forall k, lookup S k <> Some Placeholder).
-Proof. exact reflect_ok_guarantees. Qed.
-Print Assumptions C18_reflect_ok_guarantees.
+  (forall k r, lookup S k = Some (Linked r) -> names_unique_b (root_props r) = true) /\
+  (forall k, lookup S k <> Some Placeholder) /\ NoDup (map fst S).
+Proof. exact reflect_ok_guarantees_any. Qed.
+Print Assumptions C18_erased_reflect_ok_guarantees.
 
 (* ---- "never recurses forever", codec side. ObjectSchema.ClientProperties expands flattened object
    properties recursively (the stack overflow of defect #17 lived there). The flatten graph (an edge
@@ -103,10 +157,13 @@ Proof. exact reflect_prop_sets_build. Qed.
 Print Assumptions C18_prop_sets_build.
 
 (* ---- last clause, second half: every client property, with its value set, builds (buildProperty),
-   for message types whose client properties are of kinds the codec has a factory for. [supported_b]
-   excludes exactly the known findings: arrays / maps whose items are any-typed or containers, and a
-   map schema on a field that is not a map (google.protobuf.Struct). The two hypotheses range over the
-   codec's own property set of the message and over the property sets of its exposed oneofs. *)
+   for message types whose client properties are of kinds the codec supports. [supported_b]
+   (model/ReflectSpec.v) = [factory_b] (a factory exists: no arrays / maps whose items are any-typed or
+   containers, no map schema on a field that is not a map, i.e. google.protobuf.Struct) and
+   [value_settable] (no google.protobuf.Duration: its factory exists and it encodes, but no value can be
+   set, so it cannot be decoded). The two hypotheses range over the codec's own property set of the
+   message and over the property sets of its exposed oneofs. The conclusion holds for the classes as the
+   encoder behaves (member errors of an exposed oneof swallowed by IsSet) AND for the strict classes. *)
 Theorem C18_codec_usable_on_supported : forall D fs S,
   wf_keys D -> (forall m, In m (d_msgs D) -> NoDup (map f_num (m_fields m))) ->
   reflect D fs = Ok S ->
@@ -116,17 +173,17 @@ Theorem C18_codec_usable_on_supported : forall D fs S,
   (forall q k n d ops opfs p2 f2, In (q, None) pfs -> p_schema q = FOneof k None None None ->
      lookup S k = Some (Linked (ROneof n d ops)) -> new_prop_set D S (ROneof n d ops) m = Ok opfs ->
      In (p2, Some f2) opfs -> supported_b (p_schema p2) f2 = true) ->
-  codec_classes D S m r = (0%N, 0%N).
+  codec_classes D S m r = (0%N, 0%N) /\ codec_classes_strict D S m r = (0%N, 0%N).
 Proof. exact reflect_codec_usable. Qed.
 Print Assumptions C18_codec_usable_on_supported.
 
 (* ---- every clause of C18_full_statement at once, for descriptor sets satisfying wf_paths (split
-   names distinct, JSON names of fields and exposed oneofs distinct, field numbers distinct, enums
-   non-empty) and, for the last clause, message types within the codec's supported kinds *)
+   names distinct, field numbers distinct, enums non-empty; nothing about JSON names) and, for the
+   last clause, message types within the codec's supported kinds *)
 Theorem C18_full_on_wf_paths : forall D fs,
   wf_paths D ->
-  (forall s, reflect D fs <> Panic s) /\ reflect D fs <> OutOfFuel /\
-  forall S, reflect D fs = Ok S ->
+  (forall s, o_reflect D fs <> Panic s) /\ o_reflect D fs <> OutOfFuel /\
+  forall S ow, o_reflect D fs = Ok (S, ow) ->
     set_consistent D S = true /\
     forall m r, In m (d_msgs D) -> lookup S (msg_key m) = Some (Linked r) ->
       exists pfs, new_prop_set D S r m = Ok pfs /\
@@ -134,12 +191,12 @@ Theorem C18_full_on_wf_paths : forall D fs,
          (forall q k n d ops opfs p2 f2, In (q, None) pfs -> p_schema q = FOneof k None None None ->
             lookup S k = Some (Linked (ROneof n d ops)) -> new_prop_set D S (ROneof n d ops) m = Ok opfs ->
             In (p2, Some f2) opfs -> supported_b (p_schema p2) f2 = true) ->
-         codec_classes D S m r = (0%N, 0%N)).
-Proof. exact reflect_full_on_supported. Qed.
+         codec_classes D S m r = (0%N, 0%N) /\ codec_classes_strict D S m r = (0%N, 0%N)).
+Proof. exact o_reflect_full_on_supported. Qed.
 Print Assumptions C18_full_on_wf_paths.
 
-(* ---- clause 2 of the property as a theorem, for every well-formed descriptor set whose field
-   numbers are distinct per message (wf_paths; protoc guarantees it): after a successful reflection
+(* ---- clause 2 of the property as a theorem, for every descriptor set with distinct split names whose
+   field numbers are distinct per message (wf_paths; protodesc guarantees the numbers): after a successful reflection
    every object and oneof has pairwise distinct property names and every recorded proto field path
    resolves, in the message the schema describes, to a field of the matching kind (scalar kind or
    well-known type, enum to an enum schema, object / oneof to an object / oneof schema as
@@ -164,6 +221,38 @@ Theorem C18_reader_links_the_declared_schemas : forall D, wf_keys D -> forall fs
        lookup S (ex_key e) = Some (Linked (decl_oneof_of m e))).
 Proof. exact reflect_declared. Qed.
 Print Assumptions C18_reader_links_the_declared_schemas.
+
+(* ---- what messageProperties computes, stated WITHOUT its machinery (no table of exposed oneofs, no
+   pending flags, no deferred insertion; proofs/ReflectDeclSpecProofs.v):
+     spec_names    a field that is not a member of an exposed real oneof is a property under its JSON name at
+                   its place; an exposed real oneof is ONE property, under its lower-camel name, standing where
+                   the FIRST of its members stands;
+     spec_members  the members of an exposed oneof are the singular fields contained in it, in declaration
+                   order, and they are the properties of the oneof's own schema; an exposed oneof without a
+                   member is an error (so the member list is never empty).
+   First for the state-free declared schema (no hypothesis), then for the reader (wf_keys: every linked
+   message entry of a successful reflection, with the schemas of its exposed oneofs in the set). *)
+Theorem C18_declared_properties_have_the_specified_shape : forall D m exs ps,
+  decl_props D m = ROk (exs, ps) ->
+  map p_json ps = spec_names m [] (m_fields m) /\
+  map ex_idx exs = map ex_idx (decl_exposed m 0 (m_oneofs m)) /\
+  (forall e, In e exs ->
+     is_exposed m (ex_idx e) = true /\
+     map p_json (ex_props e) = map f_json (spec_members m (ex_idx e) (m_fields m)) /\
+     spec_members m (ex_idx e) (m_fields m) <> []).
+Proof. exact decl_props_shape. Qed.
+Print Assumptions C18_declared_properties_have_the_specified_shape.
+
+Theorem C18_reflected_properties_have_the_specified_shape : forall D, wf_keys D -> forall fs S m r,
+  reflect D fs = Ok S -> In m (d_msgs D) -> lookup S (msg_key m) = Some (Linked r) ->
+  map p_json (root_props r) = spec_names m [] (m_fields m) /\
+  forall exs ps e, decl_props D m = ROk (exs, ps) -> In e exs ->
+    is_exposed m (ex_idx e) = true /\
+    exists ro, lookup S (ex_key e) = Some (Linked ro) /\
+               map p_json (root_props ro) = map f_json (spec_members m (ex_idx e) (m_fields m)) /\
+               root_props ro <> [].
+Proof. exact reflected_message_shape. Qed.
+Print Assumptions C18_reflected_properties_have_the_specified_shape.
 
 (* ---- cache transparency (SchemaCache.Schema), in full (hypothesis wf_keys): whatever calls were made
    before (successful and failed, any messages, any order: [cache_reach]), the cache answers a message
@@ -261,17 +350,37 @@ Theorem C18_unsupported_kinds_err : forall k x,
 Proof. exact scalar_unhandled_errs. Qed.
 Print Assumptions C18_unsupported_kinds_err.
 
+(* the same for wktSchema and for the codec's two type switches, as PROBES of the model functions (not as
+   comparisons of two hand-written lists): the model answers with a schema for every name the Go switch
+   of wktSchema lists and for no other name, whatever the annotations; a schema type without an arm in
+   newFieldFactory / newMessageFieldFactory reaches the model's default arm (an error), one with an arm
+   does not *)
+Theorem C18_wkt_arms_are_the_code's :
+  forallb (fun n => match wkt_schema n empty_exts with ROk (Some _) => true | _ => false end) gen_wkt_names = true /\
+  forall full x, forallb (fun n => negb (str_eqb full n)) gen_wkt_names = true -> wkt_schema full x = ROk None.
+Proof. exact (conj wkt_arms_probe wkt_only_the_go_arms). Qed.
+Print Assumptions C18_wkt_arms_are_the_code's.
+
+Theorem C18_factory_arms_are_the_code's :
+  (forall st s f, name_in (schema_go_name s) ReflectGen.newFieldFactory_arms = false <->
+                  leaf_factory st s f = Err "newFieldFactory: unsupported schema for leaf field") /\
+  (forall D st s f, name_in (schema_go_name s) ReflectGen.newMessageFieldFactory_arms = false ->
+                    message_factory D st s f = Err "newMessageFieldFactory: unsupported schema for message field") /\
+  (forall D s f, name_in (schema_go_name s) ReflectGen.newMessageFieldFactory_arms = true ->
+                 message_factory D [] s f <> Err "newMessageFieldFactory: unsupported schema for message field").
+Proof. exact (conj leaf_factory_default_iff (conj message_factory_default message_factory_arms_probe)). Qed.
+Print Assumptions C18_factory_arms_are_the_code's.
+
 Definition ex_fopts := FOpts None None None None.
 
 (* ---- where the faithful model violates the full statement (each witness replays on the real code;
    the corresponding known findings are listed in KNOWN_FINDINGS.txt) *)
 
-(* 1. schema names are the descriptor path joined by "_": nested `message Col { message Inner { int32 n = 1; } }`
-   and top-level `message Col_Inner { Col.Inner i = 1; string s = 2; }` share the name Col_Inner. Enums
-   are non-empty, the reader succeeds with ONE entry for the two messages (Col_Inner is answered with
-   Col.Inner's object), and the codec cannot build the properties of Col_Inner from it (an integer
-   schema on a message field). (Until the guard in buildEnumFieldSchema the enum / message variant
-   `message Bar { enum Kind } message Bar_Kind { Bar.Kind k = 1 [enum.in] }` made the reader panic.) *)
+(* 1. (FIXED in /repo by 0e6056c) schema names are the descriptor path joined by "_": nested
+   `message Col { message Inner { int32 n = 1; } }` and top-level `message Col_Inner { Col.Inner i = 1; string s = 2; }`
+   share the name Col_Inner. Before the fix the reader succeeded with ONE entry for the two messages
+   (Col_Inner answered with Col.Inner's object; the codec could not build its properties; a shared cache
+   answered by call order). *)
 Definition collision_desc : desc :=
   {| d_msgs := [
        Msg (bytes "p.v1.Col") (bytes "p.v1") [bytes "Col"] [] [] None None [];
@@ -285,34 +394,28 @@ Definition collision_desc : desc :=
      d_files := [File (bytes "p/v1/a.proto") (bytes "p.v1")
                    [bytes "p.v1.Col"; bytes "p.v1.Col.Inner"; bytes "p.v1.Col_Inner"] []] |}.
 
-(* the reflected set and the entry of the third message, as closed terms (so that the checks below are
-   conversions of closed terms) *)
-Definition collision_set : sset :=
-  match reflect collision_desc (d_files collision_desc) with Ok st => st | _ => [] end.
+Definition collision_inner : msgd := nth 1 (d_msgs collision_desc) (Msg [] [] [] [] [] None None []).
 Definition collision_m : msgd := nth 2 (d_msgs collision_desc) (Msg [] [] [] [] [] None None []).
-Definition collision_r : root :=
-  match lookup collision_set (msg_key collision_m) with Some (Linked r) => r | _ => REnum [] [] [] [] [] end.
 
-Theorem C18_split_name_collision_refuted :
-  enums_nonempty collision_desc /\
-  (exists S m r, reflect collision_desc (d_files collision_desc) = Ok S /\ length S = 2%nat /\
-     In m (d_msgs collision_desc) /\ lookup S (msg_key m) = Some (Linked r) /\
-     codec_classes collision_desc S m r = (0%N, 1%N)) /\
-  ~ C18_full_statement.
+(* since fix 0e6056c the collision is an ERROR, never a schema of the other descriptor:
+   SchemaSetFromFiles over the file fails; a cache answers whichever of the two messages is asked
+   first (with ITS schema: Col_Inner has the properties i, s; Col.Inner has n) and fails on the other,
+   leaving the cache as it was. (The model without owners, i.e. the code before the fix, succeeds with
+   ONE entry for the two messages: the old refutation.) *)
+Theorem C18_split_name_collision_is_an_error :
+  is_err (o_reflect collision_desc (d_files collision_desc)) = true /\
+  (exists S, reflect collision_desc (d_files collision_desc) = Ok S /\ length S = 2%nat) /\
+  (let '(s1, a1) := o_cache_schema collision_desc (size collision_desc) ([], []) collision_inner in
+   let '(s2, a2) := o_cache_schema collision_desc (size collision_desc) s1 collision_m in
+   (exists r, a1 = Ok r /\ map p_json (root_props r) = [bytes "n"]) /\ is_err a2 = true /\ s2 = s1) /\
+  (let '(s1, a1) := o_cache_schema collision_desc (size collision_desc) ([], []) collision_m in
+   let '(s2, a2) := o_cache_schema collision_desc (size collision_desc) s1 collision_inner in
+   is_err a1 = true /\ s1 = ([], []) /\ (exists r, a2 = Ok r /\ map p_json (root_props r) = [bytes "n"])).
 Proof.
-  split; [intros e []|].
-  assert (Hw : exists S m r, reflect collision_desc (d_files collision_desc) = Ok S /\ length S = 2%nat /\
-     In m (d_msgs collision_desc) /\ lookup S (msg_key m) = Some (Linked r) /\
-     codec_classes collision_desc S m r = (0%N, 1%N)).
-  { exists collision_set, collision_m, collision_r.
-    split; [vm_compute; reflexivity|]. split; [vm_compute; reflexivity|].
-    split; [right; right; left; reflexivity|]. split; vm_compute; reflexivity. }
-  split; [exact Hw|].
-  intros H. destruct Hw as (S & m & r & HS & _ & Hm & Hl & Hc).
-  destruct (H collision_desc (d_files collision_desc)) as (_ & _ & Hok).
-  destruct (Hok S HS) as [_ Hcodec]. rewrite (Hcodec m r Hm Hl) in Hc. discriminate.
+  split; [vm_compute; reflexivity|]. split; [eexists; split; vm_compute; reflexivity|].
+  split; vm_compute; (split; [eexists; split; reflexivity|split; reflexivity] || (split; [reflexivity|split; [reflexivity|eexists; split; reflexivity]])).
 Qed.
-Print Assumptions C18_split_name_collision_refuted.
+Print Assumptions C18_split_name_collision_is_an_error.
 
 (* why the hypothesis of C18_reflect_total is there: in the model an enum without values makes
    buildEnum panic (sourceValues.Get(0)); protodesc.NewFiles rejects such a file, so no linked set
@@ -335,18 +438,69 @@ Definition struct_desc : desc :=
      d_enums := [];
      d_files := [File (bytes "p/v1/a.proto") (bytes "p.v1") [bytes "p.v1.M"] []] |}.
 
+Definition struct_state : ost :=
+  match o_reflect struct_desc (d_files struct_desc) with Ok s => s | _ => ([], []) end.
+Definition struct_m : msgd := nth 0 (d_msgs struct_desc) (Msg [] [] [] [] [] None None []).
+Definition struct_r : root :=
+  match lookup (fst struct_state) (msg_key struct_m) with Some (Linked r) => r | _ => REnum [] [] [] [] [] end.
+
 Theorem C18_struct_codec_refuted :
-  enums_nonempty struct_desc /\
-  exists S m r, reflect struct_desc (d_files struct_desc) = Ok S /\ In m (d_msgs struct_desc) /\
+  enums_nonempty struct_desc /\ wf_paths struct_desc /\
+  (exists S ow m r, o_reflect struct_desc (d_files struct_desc) = Ok (S, ow) /\ In m (d_msgs struct_desc) /\
                 lookup S (msg_key m) = Some (Linked r) /\ set_consistent struct_desc S = true /\
-                codec_classes struct_desc S m r = (0%N, 1%N).
+                codec_classes struct_desc S m r = (0%N, 1%N) /\ codec_classes_strict struct_desc S m r = (0%N, 1%N)) /\
+  ~ C18_full_statement.
 Proof.
-  split.
-  - intros e [].
-  - eexists. eexists. eexists. split; [vm_compute; reflexivity|]. split; [left; reflexivity|].
-    split; [vm_compute; reflexivity|]. split; vm_compute; reflexivity.
+  split; [intros e []|]. split; [apply wf_paths_b_sound; vm_compute; reflexivity|].
+  assert (Hw : exists S ow m r, o_reflect struct_desc (d_files struct_desc) = Ok (S, ow) /\ In m (d_msgs struct_desc) /\
+                lookup S (msg_key m) = Some (Linked r) /\ set_consistent struct_desc S = true /\
+                codec_classes struct_desc S m r = (0%N, 1%N) /\ codec_classes_strict struct_desc S m r = (0%N, 1%N)).
+  { exists (fst struct_state), (snd struct_state), struct_m, struct_r.
+    split; [vm_compute; reflexivity|]. split; [left; reflexivity|].
+    split; [vm_compute; reflexivity|]. split; [vm_compute; reflexivity|]. split; vm_compute; reflexivity. }
+  split; [exact Hw|].
+  intros H. destruct Hw as (S & ow & m & r & HS & Hm & Hl & _ & _ & Hc).
+  destruct (H struct_desc (d_files struct_desc)) as (_ & _ & Hok).
+  destruct (Hok S ow HS) as [_ Hcodec]. destruct (Hcodec m r Hm Hl) as [Hcs _]. rewrite Hcs in Hc. discriminate.
 Qed.
 Print Assumptions C18_struct_codec_refuted.
+
+(* 2b. google.protobuf.Duration: reflects (string / format duration, well-known type name kept), the
+   property set and the property's factory build (strict classes (0,0)), it is even encoded (as prototext),
+   but no value can be SET on it (checkValueKind: "values of type google.protobuf.Duration are not
+   supported"), so a populated message cannot be decoded. [value_settable] is the model's statement of
+   that; known finding. *)
+Definition duration_desc : desc :=
+  {| d_msgs := [
+       Msg (bytes "p.v1.M") (bytes "p.v1") [bytes "M"]
+         [Fld (bytes "d") (bytes "d") 1 KMessage CSingle None (TMsg (bytes "google.protobuf.Duration")) ex_fopts []]
+         [] None None []];
+     d_enums := [];
+     d_files := [File (bytes "p/v1/a.proto") (bytes "p.v1") [bytes "p.v1.M"] []] |}.
+Definition duration_state : ost :=
+  match o_reflect duration_desc (d_files duration_desc) with Ok s => s | _ => ([], []) end.
+Definition duration_m : msgd := nth 0 (d_msgs duration_desc) (Msg [] [] [] [] [] None None []).
+Definition duration_r : root :=
+  match lookup (fst duration_state) (msg_key duration_m) with Some (Linked r) => r | _ => REnum [] [] [] [] [] end.
+Definition duration_pfs : list (prop * option field) :=
+  match new_prop_set duration_desc (fst duration_state) duration_r duration_m with Ok l => l | _ => [] end.
+
+Theorem C18_duration_not_settable_refuted :
+  wf_paths duration_desc /\
+  o_reflect duration_desc (d_files duration_desc) = Ok duration_state /\
+  lookup (fst duration_state) (msg_key duration_m) = Some (Linked duration_r) /\
+  set_consistent duration_desc (fst duration_state) = true /\
+  codec_classes_strict duration_desc (fst duration_state) duration_m duration_r = (0%N, 0%N) /\
+  new_prop_set duration_desc (fst duration_state) duration_r duration_m = Ok duration_pfs /\
+  (exists q f, In (q, Some f) duration_pfs /\ factory_b (p_schema q) f = true /\ value_settable (p_schema q) = false /\
+               supported_b (p_schema q) f = false).
+Proof.
+  split; [apply wf_paths_b_sound; vm_compute; reflexivity|].
+  split; [vm_compute; reflexivity|]. split; [vm_compute; reflexivity|]. split; [vm_compute; reflexivity|].
+  split; [vm_compute; reflexivity|]. split; [vm_compute; reflexivity|].
+  eexists. eexists. split; [left; vm_compute; reflexivity|]. split; [vm_compute; reflexivity|]. split; vm_compute; reflexivity.
+Qed.
+Print Assumptions C18_duration_not_settable_refuted.
 
 (* 3. flattening does not check names: the client properties of A carry "id" twice *)
 Definition flatten_names_desc : desc :=
@@ -374,10 +528,10 @@ Proof.
 Qed.
 Print Assumptions C18_flatten_names_refuted.
 
-(* 4. (found by the independent audit) protoc checks JSON-name conflicts between fields only: an exposed
-   oneof named foo_bar gets the property name lowerCamel("foo_bar") = "fooBar", the same as the field
-   fooBar. Split names are distinct, enums non-empty, field JSON names distinct, field numbers distinct:
-   only json_ok, the second half of wf_desc (which also ranges over exposed oneofs), fails. *)
+(* 4. (found by the independent audit; FIXED in /repo by 07ed85e) protoc checks JSON-name conflicts between
+   fields only: an exposed oneof named foo_bar gets the property name lowerCamel("foo_bar") = "fooBar",
+   the same as the field fooBar. Split names are distinct, enums non-empty, field JSON names distinct,
+   field numbers distinct. The reader used to succeed with two properties fooBar; it now returns an error. *)
 Definition oneof_clash_desc : desc :=
   {| d_msgs := [
        Msg (bytes "p.v1.M") (bytes "p.v1") [bytes "M"]
@@ -387,20 +541,19 @@ Definition oneof_clash_desc : desc :=
      d_enums := [];
      d_files := [File (bytes "p/v1/a.proto") (bytes "p.v1") [bytes "p.v1.M"] []] |}.
 
-Theorem C18_exposed_oneof_name_clash_refuted :
+Theorem C18_exposed_oneof_name_clash_is_an_error :
   enums_nonempty oneof_clash_desc /\ NoDup (all_keys oneof_clash_desc) /\
   (forall m, In m (d_msgs oneof_clash_desc) -> NoDup (map f_json (m_fields m)) /\ NoDup (map f_num (m_fields m))) /\
-  exists S ps, reflect oneof_clash_desc (d_files oneof_clash_desc) = Ok S /\
-    lookup S (bytes "p.v1", bytes "M") = Some (Linked (RObject (bytes "M") [] None [] ps)) /\
-    names_unique_b ps = false /\ set_consistent oneof_clash_desc S = false.
+  is_err (o_reflect oneof_clash_desc (d_files oneof_clash_desc)) = true /\
+  is_err (reflect oneof_clash_desc (d_files oneof_clash_desc)) = true.
 Proof.
   split; [intros e []|].
   split; [apply nodup_refs_NoDup; vm_compute; reflexivity|].
   split.
   - intros m [<-|[]]. split; [apply nodup_str_NoDup|apply nodup_N_NoDup]; vm_compute; reflexivity.
-  - eexists. eexists. split; [vm_compute; reflexivity|]. split; [vm_compute; reflexivity|]. split; vm_compute; reflexivity.
+  - split; vm_compute; reflexivity.
 Qed.
-Print Assumptions C18_exposed_oneof_name_clash_refuted.
+Print Assumptions C18_exposed_oneof_name_clash_is_an_error.
 
 (* ---- non-vacuity: a self-recursive and a mutually recursive message, an enum, a bool const rule,
    a flattened (non-cyclic) field; the hypotheses hold and the reader succeeds *)
@@ -423,13 +576,15 @@ Definition ex_desc : desc :=
 
 Example C18_example :
   wf_paths ex_desc /\ wf_desc ex_desc /\ enums_nonempty ex_desc /\
+  (exists S ow, o_reflect ex_desc (d_files ex_desc) = Ok (S, ow) /\ length S = 3%nat /\ length ow = 3%nat) /\
   exists S, reflect ex_desc (d_files ex_desc) = Ok S /\ length S = 3%nat /\ set_consistent ex_desc S = true.
 Proof.
   split; [apply wf_paths_b_sound; vm_compute; reflexivity|].
   split; [apply wf_desc_b_sound; vm_compute; reflexivity|].
   split.
   - intros e [<-|[]]. cbn. discriminate.
-  - eexists. split; [vm_compute; reflexivity|]. split; vm_compute; reflexivity.
+  - split; [eexists; eexists; split; [vm_compute; reflexivity|split; vm_compute; reflexivity]|].
+    eexists. split; [vm_compute; reflexivity|]. split; vm_compute; reflexivity.
 Qed.
 
 (* the hypotheses of C18_codec_usable_on_supported are met by both messages of the example (an object
@@ -465,4 +620,31 @@ Proof.
   eexists. eexists. split; [left; reflexivity|]. split; [right; left; reflexivity|].
   cbv zeta. split; [apply reach_call; [apply reach_new|right; left; reflexivity]|].
   eexists. split; [vm_compute; reflexivity|]. split; vm_compute; reflexivity.
+Qed.
+
+(* the shape theorems on an example: message M { a; oneof pick (exposed) { x }; b; oneof pick { y } }: the
+   properties of M are [a; pick; b] (the oneof stands where its first member x stands), the properties of
+   the oneof schema M_pick are [x; y] *)
+Definition shape_desc : desc :=
+  {| d_msgs := [
+       Msg (bytes "p.v1.M") (bytes "p.v1") [bytes "M"]
+         [Fld (bytes "a") (bytes "a") 1 KString CSingle None TNone ex_fopts [];
+          Fld (bytes "x") (bytes "x") 2 KString CSingle (Some 0%N) TNone ex_fopts [];
+          Fld (bytes "b") (bytes "b") 3 KString CSingle None TNone ex_fopts [];
+          Fld (bytes "y") (bytes "y") 4 KString CSingle (Some 0%N) TNone ex_fopts []]
+         [Oneof (bytes "pick") (bytes "pick") false (Some true) []] None None []];
+     d_enums := [];
+     d_files := [File (bytes "p/v1/a.proto") (bytes "p.v1") [bytes "p.v1.M"] []] |}.
+Definition shape_m : msgd := nth 0 (d_msgs shape_desc) (Msg [] [] [] [] [] None None []).
+Example C18_example_shape :
+  wf_keys shape_desc /\
+  spec_names shape_m [] (m_fields shape_m) = [bytes "a"; bytes "pick"; bytes "b"] /\
+  map f_json (spec_members shape_m 0%N (m_fields shape_m)) = [bytes "x"; bytes "y"] /\
+  exists S r ro, reflect shape_desc (d_files shape_desc) = Ok S /\
+    lookup S (bytes "p.v1", bytes "M") = Some (Linked r) /\ map p_json (root_props r) = [bytes "a"; bytes "pick"; bytes "b"] /\
+    lookup S (bytes "p.v1", bytes "M_pick") = Some (Linked ro) /\ map p_json (root_props ro) = [bytes "x"; bytes "y"].
+Proof.
+  split; [apply wf_desc_b_sound; vm_compute; reflexivity|]. split; [vm_compute; reflexivity|]. split; [vm_compute; reflexivity|].
+  eexists. eexists. eexists. split; [vm_compute; reflexivity|]. split; [vm_compute; reflexivity|].
+  split; [vm_compute; reflexivity|]. split; vm_compute; reflexivity.
 Qed.
